@@ -25,16 +25,16 @@ type WriteRec struct {
 
 // Cluster: N real OrbitDB instances with one database of a given type opened on all of them.
 type Cluster struct {
-	K      *K
-	Peers  []*Peer
-	Stores []iface.Store // Stores[i] is peer i's replica (nil when down)
-	Addr   string
-	Type   string
-	Writes []*WriteRec
-	ByHash map[string]*WriteRec
+	K          *K
+	Peers      []*Peer
+	Stores     []iface.Store // Stores[i] is peer i's replica (nil when down)
+	Addr       string
+	Type       string
+	Writes     []*WriteRec
+	ByHash     map[string]*WriteRec
 	CreateOpts func(i int) *orbitdb.CreateDBOptions
 	PeerOpts   []PeerOpt
-	wseq   []int
+	wseq       []int
 }
 
 type ClusterCfg struct {
